@@ -123,6 +123,32 @@ class FrontGen:
         out.append(('pp', '#define A B\n#define B C\n#define C A\nA', {}, 'mutually recursive macros'))
         out.append(('pp', '#define F(x) F(x)\nF(1)', {}, 'self-recursive function-like macro'))
         out.append(('pp', '#define F(A,,B) x\nF(1,2,3)', {}, 'empty parameter name'))
+        # cycles that pass through the argument of a function-like macro
+        out.append(('pp', '#define F(x) x\n#define A F(A)\nA\n', {}, 'macro cycle through an argument'))
+        out.append(('pp', '#define F(x) G(x)\n#define G(x) x\n#define A F(B)\n#define B G(A)\nA\n', {}, 'macro cycle through nested arguments'))
+        out.append(('preprocess', '#define F(x) x\n#define A F(A)\nA\n', {}, 'macro cycle through an argument, from a script'))
+        out.append(('pp', '#define F(x) [x, x]\n#define A F(F(A))\nx = A;\n', {}, 'macro cycle through a nested call in an argument'))
+        # evaluated expressions: broken ones, several in one text, one inside the text another one preprocesses
+        out.append(('pp', 'a __EVAL(1 +) b __EVAL(1 + 2) c', {}, 'EVAL behind a broken EVAL'))
+        out.append(('pp', '__EXEC(x = )\n__EXEC(y = 2)\n__EVAL(y)', {}, 'EXEC behind a broken EXEC'))
+        out.append(('preprocess', 'a __EVAL(1 +) b', {}, 'broken EVAL, from a script'))
+        out.append(('preprocess', 'c __EVAL(1 + 2) d __EVAL([1, 2) e __EVAL("s") f', {}, 'several EVALs, one broken, from a script'))
+        out.append(('pp', '__EVAL(preprocess__ "__EVAL(7)")', {}, 'EVAL inside the text an EVAL preprocesses'))
+        out.append(('pp', '__EVAL(compile "1 +")', {}, 'EVAL whose expression fails at run time'))
+        # time proportional to the input: long flat inputs of every kind
+        for n in (20000, 80000):
+            out.append(('sqf', '[' + '1,' * n + '1]', {}, 'array literal with %d elements' % n))
+            out.append(('compile', '[' + '1,' * n + '1]', {}, 'array literal with %d elements, compiled' % n))
+            out.append(('sqf', 'a = 1;' * n, {}, '%d statements' % n))
+            out.append(('sqf', '[' + '[1],' * (n // 2) + '[2]]', {}, 'array of %d arrays' % (n // 2)))
+            out.append(('sqf', 'a = "' + 'x' * n + '"; b = \'' + 'y""' * (n // 4) + '\';', {}, 'strings of %d characters' % n))
+            out.append(('cfg', 'class A { a[] = {' + '1,' * n + '1}; };', {}, 'config array with %d elements' % n))
+            out.append(('cfg', 'class A { ' + 'x = 1; ' * n + '};', {}, 'config class with %d fields' % n))
+            out.append(('cfg', 'class A {};' * n, {}, '%d config classes' % n))
+            out.append(('pp', '#define F(a) a\nx = F(' + '1 + ' * (n // 4) + '1);', {}, 'macro argument of %d tokens' % (n // 4)))
+            out.append(('pp', '/**/' * n + 'a = 1;', {}, '%d adjacent comments' % n))
+            out.append(('pp', 'a = 1 + \\\n' * (n // 4) + '1;', {}, '%d line continuations' % (n // 4)))
+        out.append(('pp', '/**/' * 1000000 + 'a = 1;', {}, '1000000 adjacent comments'))
         out.append(('pp', '#include "main.sqf"', {}, 'self include'))
         out.append(('pp', '#include "a.hpp"', {'a.hpp': '#include "b.hpp"', 'b.hpp': '#include "a.hpp"'}, 'mutual include'))
         out.append(('pp', '__EXEC(x = 1)', {}, 'EXEC without value'))
